@@ -60,6 +60,7 @@ type World struct {
 	HTTP     *httptest.Server
 	HTTPHits int
 	Codes    map[sdk.CodeType]string
+	dir      string // working directory of this process (evidence db), removed by Close
 }
 
 // errNames maps the real error codes to the names the specifications use; built from
@@ -67,31 +68,31 @@ type World struct {
 func errNames() map[sdk.CodeType]string {
 	m := sdk.CodespaceType(pc.ModuleName)
 	return map[sdk.CodeType]string{
-		pc.NewInvalidBlockHeightError(m).Code():          "height",
-		pc.NewEmptyPayloadDataError(m).Code():            "payload",
-		pc.NewOutOfSyncRequestError(m).Code():            "sync",
-		pc.NewRequestHashError(m).Code():                 "reqhash",
-		pc.NewUnsupportedBlockchainNodeError(m).Code():   "nothosted",
-		pc.NewAppNotFoundError(m).Code():                 "noapp",
-		pc.NewChainsOverLimitError(m, 0, 0).Code():       "chainslimit",
-		pc.NewSealedEvidenceError(m).Code():              "sealed",
-		pc.NewDuplicateProofError(m).Code():              "dup",
-		pc.NewOverServiceError(m).Code():                 "over",
-		pc.NewPubKeySizeError(m).Code():                  "pksize",
-		pc.NewPubKeyDecodeError(m).Code():                "pkdecode",
-		pc.NewInvalidEntropyError(m).Code():              "entropy",
-		pc.NewInvalidTokenError(m, fmt.Errorf("x")).Code(): "token",
-		pc.NewInvalidSignatureError(m).Code():            "sig",
-		pc.NewInvalidSignatureSizeError(m).Code():        "sigsize",
-		pc.NewSigDecodeError(m).Code():                   "sigdecode",
-		pc.NewInvalidNodePubKeyError(m).Code():           "servicer",
-		pc.NewUnsupportedBlockchainAppError(m).Code():    "appchain",
-		pc.NewInvalidSessionError(m).Code():              "session",
-		pc.NewInsufficientNodesError(m).Code():           "nodes",
+		pc.NewInvalidBlockHeightError(m).Code():             "height",
+		pc.NewEmptyPayloadDataError(m).Code():               "payload",
+		pc.NewOutOfSyncRequestError(m).Code():               "sync",
+		pc.NewRequestHashError(m).Code():                    "reqhash",
+		pc.NewUnsupportedBlockchainNodeError(m).Code():      "nothosted",
+		pc.NewAppNotFoundError(m).Code():                    "noapp",
+		pc.NewChainsOverLimitError(m, 0, 0).Code():          "chainslimit",
+		pc.NewSealedEvidenceError(m).Code():                 "sealed",
+		pc.NewDuplicateProofError(m).Code():                 "dup",
+		pc.NewOverServiceError(m).Code():                    "over",
+		pc.NewPubKeySizeError(m).Code():                     "pksize",
+		pc.NewPubKeyDecodeError(m).Code():                   "pkdecode",
+		pc.NewInvalidEntropyError(m).Code():                 "entropy",
+		pc.NewInvalidTokenError(m, fmt.Errorf("x")).Code():  "token",
+		pc.NewInvalidSignatureError(m).Code():               "sig",
+		pc.NewInvalidSignatureSizeError(m).Code():           "sigsize",
+		pc.NewSigDecodeError(m).Code():                      "sigdecode",
+		pc.NewInvalidNodePubKeyError(m).Code():              "servicer",
+		pc.NewUnsupportedBlockchainAppError(m).Code():       "appchain",
+		pc.NewInvalidSessionError(m).Code():                 "session",
+		pc.NewInsufficientNodesError(m).Code():              "nodes",
 		pc.NewHTTPExecutionError(m, fmt.Errorf("x")).Code(): "http",
-		pc.NewHexDecodeError(m, fmt.Errorf("x")).Code():  "hex",
-		pc.NewInvalidHashLengthError(m).Code():           "hashlen",
-		pc.NewEmptyHashError(m).Code():                   "emptyhash",
+		pc.NewHexDecodeError(m, fmt.Errorf("x")).Code():     "hex",
+		pc.NewInvalidHashLengthError(m).Code():              "hashlen",
+		pc.NewEmptyHashError(m).Code():                      "emptyhash",
 	}
 }
 
@@ -105,7 +106,7 @@ func NewWorld() *World {
 	if err := os.Chdir(dir); err != nil {
 		hx.Fatal("%v", err)
 	}
-	w := &World{Codes: errNames()}
+	w := &World{Codes: errNames(), dir: dir}
 	w.HTTP = httptest.NewServer(http.HandlerFunc(func(rw http.ResponseWriter, r *http.Request) {
 		w.HTTPHits++
 		_, _ = rw.Write([]byte(`{"id":1,"jsonrpc":"2.0","result":"0x1"}`))
@@ -170,6 +171,8 @@ func NewWorld() *World {
 
 func (w *World) Close() {
 	w.HTTP.Close()
+	_ = os.Chdir(os.TempDir())
+	_ = os.RemoveAll(w.dir)
 }
 
 // Ctx is the context the RPC layer builds for a relay (app.NewContext = PrevCtx over
@@ -192,19 +195,19 @@ func (w *World) pubHex(i int) string { return w.Sim.Keys[i].PublicKey().RawStrin
 
 // RelaySpec says how to build one relay; the zero alterations give a valid relay.
 type RelaySpec struct {
-	AppKey      int    // key whose public key is the token's application key
-	AppSigner   int    // key that signs the token
-	ClientInTok int    // key named as client in the token
-	ProofSigner int    // key that signs the relay proof
-	Version     string // token version
-	Chain       string
-	SessionH    int64
-	MetaH       int64
-	Entropy     int64
-	Servicer    string // hex servicer public key in the proof
-	Data        string // payload data
-	TamperData  string // if non-empty: payload data replaced AFTER the request hash was computed
-	ReqHash     string // if non-empty: overrides the request hash
+	AppKey                                                      int    // key whose public key is the token's application key
+	AppSigner                                                   int    // key that signs the token
+	ClientInTok                                                 int    // key named as client in the token
+	ProofSigner                                                 int    // key that signs the relay proof
+	Version                                                     string // token version
+	Chain                                                       string
+	SessionH                                                    int64
+	MetaH                                                       int64
+	Entropy                                                     int64
+	Servicer                                                    string // hex servicer public key in the proof
+	Data                                                        string // payload data
+	TamperData                                                  string // if non-empty: payload data replaced AFTER the request hash was computed
+	ReqHash                                                     string // if non-empty: overrides the request hash
 	CorruptTokSig, CorruptProofSig, EmptyProofSig, EmptyPayload bool
 }
 
